@@ -655,8 +655,25 @@ func (g *gen) execAppend(fr *frame, cur *node, st *State, c *ssa.CallCommon, pos
 }
 
 func (g *gen) execCopy(fr *frame, cur *node, st *State, c *ssa.CallCommon, pos token.Pos) Val {
-	g.errorf("%s: copy is only supported in strings mode", g.name)
-	return g.c.fresh("copied", "Int")
+	dst := g.sval(fr, c.Args[0])
+	dt, ok := c.Args[0].Type().Underlying().(*types.Slice)
+	if !g.c.strMode || !ok || !isByte(dt.Elem()) {
+		g.errorf("%s: copy is only supported for byte slices in strings mode", g.name)
+		return g.c.fresh("copied", "Int")
+	}
+	var src, slen string
+	if sortOf(c.Args[1].Type()) == "Str" {
+		src = g.sval(fr, c.Args[1])
+		slen = app("str.len", src)
+	} else {
+		s := g.sval(fr, c.Args[1])
+		src = g.bytesOf(st, s)
+		slen = app("slen", s)
+	}
+	n := g.c.fresh("copied", "Int")
+	cur.assume(app("=", n, app("ite", app("<", app("slen", dst), slen), app("slen", dst), slen)))
+	g.spliceBytes(cur, st, app("sbase", dst), app("soff", dst), n, src)
+	return n
 }
 
 func sortedKeys(m map[string]bool) []string {
